@@ -221,15 +221,32 @@ impl Request {
     #[cfg(feature="__rt_native__")]
     #[inline]
     pub(crate) async fn read(
+        self:   Pin<&mut Self>,
+        stream: &mut (impl AsyncRead + Unpin),
+    ) -> Result<Option<()>, crate::Response> {
+        self.read_carrying(stream, &mut Vec::new()).await
+    }
+
+    #[cfg(feature="__rt_native__")]
+    /// `read` for a connection that may carry several requests in a row
+    /// ( pipelining ) : `carry` holds the bytes that were received together
+    /// with the previous request but belong to the following one(s). They
+    /// are taken as the beginning of this request, and what follows this
+    /// request in the buffer is left in `carry` again.
+    pub(crate) async fn read_carrying(
         mut self: Pin<&mut Self>,
         stream:   &mut (impl AsyncRead + Unpin),
+        carry:    &mut Vec<u8>,
     ) -> Result<Option<()>, crate::Response> {
         use crate::Response;
 
+        let mut n = carry.len().min(BUF_SIZE);
+        self.__buf__[..n].copy_from_slice(&carry[..n]);
+        carry.clear();
+
         // A request head may arrive in several TCP segments:
         // read until the end of the head ( or the buffer ) is reached
-        let mut n = 0;
-        loop {
+        if !/* not */(n == BUF_SIZE || self.__buf__[..n].windows(4).any(|w| w == b"\r\n\r\n")) {loop {
             match stream.read(&mut self.__buf__[n..]).await {
                 Ok (0) => return Ok(None),
                 Err(e) => return match e.kind() {
@@ -247,7 +264,7 @@ impl Request {
                     }
                 }
             }
-        }
+        }}
 
         let mut r = Reader::new(unsafe {
             // pass detouched bytes
@@ -319,6 +336,11 @@ impl Request {
                 Ok(payload) => self.payload = Some(payload),
                 Err(_) => return Ok(None), // connection lost in the middle of the payload
             }
+        }
+
+        // bytes following this request belong to the next one
+        if content_length < r.remaining().len() {
+            carry.extend_from_slice(&r.remaining()[content_length..]);
         }
 
         Ok(Some(()))
